@@ -117,6 +117,22 @@ CHECKS["C06"] = dict(
     technique="state-set abstract interpretation with inlining + errno-source tracking + condition classification",
     design="3/C06")
 
+
+CHECKS["C13"] = dict(
+    text="Decides structural necessary conditions only; the outcome of the algorithms over resolver answers and peer reactions is a relation "
+         "on run-time histories and is not decided. Decided on all paths: (R1) no address of an automatic object is handed to a parameter "
+         "that escapes into heap or global storage (whole library; the connect tracker's local address is the instance the property names); "
+         "(R2) in every loop around a blocking wait the failure of each status call has a feasible way out of the loop in the same iteration "
+         "(an ordered comparison of a pointer with 0 is a dead edge) - xcm_server on an unresolvable name cannot hang; (R3) each failed "
+         "attempt's errno is captured fresh and recorded before the next address is tried; (R4) `single` hands exactly one address to the "
+         "tracker, `sequential`/`happy_eyeballs` all, unknown algorithms are refused, list/count/timeout arguments reach every track unchanged, "
+         "happy eyeballs makes one track per family; (R5) resolution failure/overall-timer expiry => ENOENT, attempt-timer expiry => ETIMEDOUT + "
+         "abort + next address, EAGAIN only while a track is in progress; (R6) timers are armed with the configured timeouts; (R7) with a local "
+         "address every attempt binds before connect() and a failed bind never reaches connect().",
+    note=TRUSTED + " Library functions outside escape.RETAINING_EXT are assumed not to keep pointer arguments.",
+    technique="escape analysis + feasible-path search in loop SCCs + errno-source tracking + argument-flow/control-dependence checks",
+    design="3/C13")
+
 NOT_APPLICABLE = {}
 
 
